@@ -232,6 +232,11 @@ def build_engine_ops(ck, layout, t, B, maxcount, fail, src, obs=None):
                 vals.append(VEnum(OPTION, bv(0, 8), {0: ()}))
             elif f == "node_id":
                 vals.append(VStruct([VStruct([VArr([bv(0, 8)] * 32)], "DhtKey")], "NodeId"))
+            elif f == "diversity_slots":
+                # no peer of this table holds diversity slots (slot accounting is C13's subject): removal releases nothing
+                import c13_engine
+
+                vals.append(eng.alloc(st, c13_engine.empty_slots_map(eng)))
             else:
                 vals.append(VOpaque("DhtCoreEngine." + f))
         re_ = eng.alloc(st, VStruct(vals, "DhtCoreEngine"))
